@@ -433,6 +433,8 @@ class Table:
             if key in ['=','!=','<=','<','>','>=','match','in','!in']:
                 comparison,arg = key,value
 
+        if arg is None: arg = Missing #None asks for the rows without a value
+
         if method != "bisect" or callable(arg):
             col = col[lo:hi]
 
